@@ -62,7 +62,7 @@ func c08Cells(tier string) []Cell {
 		strat int
 	}
 
-	batches := []bs{{"none", 0}, {"expireall", 0}, {"deleteall", 0}, {"cleanup", 0}, {"evict", 0}, {"evict", 1}, {"evict", 2}, {"walk", 0}, {"walk", 1}}
+	batches := []bs{{"none", 0}, {"expireall", 0}, {"deleteall", 0}, {"cleanup", 0}, {"evict", 0}, {"evict", 1}, {"evict", 2}, {"walk", 0}, {"walk", 1}, {"walkfail", 0}}
 
 	for _, b := range backendKinds {
 		for _, bt := range batches {
@@ -306,6 +306,23 @@ func (h *c08h) batch(kind string, client int) {
 	case "evict":
 		h.b.Cleanup()
 		pseudo = []string{"cleanup", "evict"} // a cycle = delete-expired job, then eviction: two batch operations
+	case "walkfail":
+		// a Walk whose callback gives up at the first entry: nothing is observed, but the cache must stay usable for
+		// everybody (the other threads' operations and a probe in the shard the walk stopped in must complete)
+		var at []byte
+
+		_, _ = h.b.Walk(func(k []byte, v interface{}, _ time.Time) error {
+			at = append([]byte(nil), k...)
+			return errWalkStop
+		})
+
+		if at != nil {
+			if err := h.b.Delete(ctx, missingKeyNear(at)); !errors.Is(err, cache.ErrNotFound) {
+				h.bad = append(h.bad, fmt.Sprintf("Delete of a missing key after a Walk that stopped early returned %v", err))
+			}
+		}
+
+		return
 	case "walk":
 		var seen []string
 
@@ -625,7 +642,7 @@ func init() {
 		Cells: c08Cells, Run: c08Run,
 		Rule: "client programs: thread A = every sequence of 1-2 operations over {Write,Read,Delete} x {k0,k1}, thread B = every sequence of 1 (quick) / 1-2 (thorough) operations, optional third single-operation thread (thorough), " +
 			"preemption bound 2 with happens-before caching; thorough additionally runs the quick programs with ALL interleavings; " +
-			"plus one batch thread from {ExpireAll, DeleteAll, cleanup (delete-expired), eviction under MostExpired/LRU/LFU, Walk under MostExpired/LRU}; k0,k1 live in the same shard; 3 backends; the ExpireAll and cleanup cells once more on a cache configured with UnlimitedTTL; the client programs once more on two keys with the SAME xxhash64 (slot model: a write may displace the colliding key, nothing else may cross keys); " +
+			"plus one batch thread from {ExpireAll, DeleteAll, cleanup (delete-expired), eviction under MostExpired/LRU/LFU, Walk under MostExpired/LRU, Walk whose callback gives up}; k0,k1 live in the same shard; 3 backends; the ExpireAll and cleanup cells once more on a cache configured with UnlimitedTTL; the client programs once more on two keys with the SAME xxhash64 (slot model: a write may displace the colliding key, nothing else may cross keys); " +
 			"all schedules within the bound; each per-key history (invocation/response stamped by a logical clock, batch calls as one pseudo-operation per key spanning the call, every Walk report as a read-like pseudo-operation) " +
 			"is checked with porcupine against a nondeterministic register-with-expiry model; an entry nobody touches must be visited exactly once by every Walk",
 		Assumptions: []string{
